@@ -183,8 +183,9 @@ func (h *hookWriter) Write(b []byte) (int, error) {
 }
 
 type chunkBody struct {
-	b    []byte
-	size func(int) int
+	b     []byte
+	sizes []int
+	next  int
 }
 
 func (c *chunkBody) Read(p []byte) (int, error) {
@@ -193,10 +194,11 @@ func (c *chunkBody) Read(p []byte) (int, error) {
 	}
 	simhook.Yield("net:body-read")
 	n := len(c.b)
-	if c.size != nil {
-		if k := c.size(len(c.b)); k > 0 && k < n {
+	if len(c.sizes) > 0 {
+		if k := c.sizes[c.next%len(c.sizes)]; k > 0 && k < n {
 			n = k
 		}
+		c.next++
 	}
 	if n > len(p) {
 		n = len(p)
@@ -216,7 +218,17 @@ func serve(h http.Handler, rs reqSpec) *respRec {
 	}
 	var body io.Reader
 	if rs.Body != nil {
-		body = &chunkBody{b: rs.Body, size: rs.ChunkSize}
+		cb := &chunkBody{b: rs.Body}
+		if rs.ChunkSize != nil {
+			// the read sizes of this request are drawn up front, a fixed number
+			// of them, and used round robin: how many reads the server needs
+			// depends on the exact length of the (compressed) body, which the
+			// tape must not depend on
+			for i := 0; i < 16; i++ {
+				cb.sizes = append(cb.sizes, rs.ChunkSize(len(rs.Body)))
+			}
+		}
+		body = cb
 	}
 	req := httptest.NewRequest(rs.Method, "https://relic.sim"+u, body)
 	if rs.Body != nil {
